@@ -147,7 +147,7 @@ def run_nrt(p, v):
     try:
         # spawning a child does not influence anybody else's time; only a
         # tempo change exactly when another clock's routine wakes would
-        m = prog_model.Model(p, interacting={'tempo', 'etempo', 'beats_add'}).run()
+        m = prog_model.Model(p, interacting={'tempo', 'etempo'}).run()
     except prog_model.Ambiguous:
         raise Reject()
     if m.simultaneous:
@@ -182,8 +182,15 @@ def run_nrt(p, v):
 
 def run_rt(case, v):
     p = case['prog']
+    inter = {'tempo', 'etempo'}
+    if any(op[0] == 'beats_add' for r in p['routines'].values()
+           for op in r['body']):
+        # a jump of the beats is not continuous in seconds for the tasks
+        # tied at that beat: the order in which two threads queued them
+        # (spawning from another clock at the same instant) then matters
+        inter |= {'beats_add', 'play', 'sched'}
     try:
-        m = prog_model.Model(p, interacting={'tempo', 'etempo', 'beats_add'}).run()
+        m = prog_model.Model(p, interacting=inter).run()
     except prog_model.Ambiguous:
         raise Reject()
     if m.simultaneous:
